@@ -80,7 +80,9 @@ func cmdVC(args []string) {
 		os.WriteFile(*dump, []byte(tr.prelude(true)), 0o644)
 	}
 	scratch := scratchDir()
-	defer os.RemoveAll(scratch)
+	if os.Getenv("GOVC_KEEP") == "" {
+		defer os.RemoveAll(scratch)
+	}
 	cfg := &SolverCfg{TimeoutMs: *timeout, Scratch: scratch}
 	tr.discharge(cfg, runtime.NumCPU(), nil)
 	for _, o := range tr.obls {
@@ -92,8 +94,8 @@ func cmdVC(args []string) {
 		}
 		fmt.Printf("%-8s %-7s %5dms %s  [%s]\n", o.Result, o.Solver, o.TimeMs, o.Name, o.Pos)
 		if (o.Result != "unsat" || os.Getenv("GOVC_SHOWALL") != "") && *verbose {
-			fmt.Println("   guard:", o.Guard)
-			fmt.Println("   goal: ", o.Goal)
+			fmt.Println("   guard:", clip(o.Guard, 300))
+			fmt.Println("   goal: ", clip(o.Goal, 300))
 			fmt.Println("   ", firstLines(o.Model, 6))
 		}
 	}
@@ -131,3 +133,10 @@ func cmdList(args []string) {
 	}
 }
 
+
+func clip(s string, n int) string {
+	if len(s) > n {
+		return s[:n] + "..."
+	}
+	return s
+}
